@@ -914,6 +914,9 @@ def run(check):
     check.guarded("DECLARE-FIRST", rule_declare_first)
     check.guarded("RESET-DISCIPLINE", rule_reset)
     check.guarded("TARGET-KEPT", rule_target_kept)
+    # assigned before it is read: the temporary handed out for an operand is the one assigned on this path
+    from .. import xformrules as _X
+    check.guarded("FRESH-TEMP", _X.rule_assigned_in_sequence)
     check.guarded("TYPEGRAPH", rule_typegraph)
     check.note("TRAV-IDENT: Expr::Arrow.0.body is not a hole: ARROW-BLOCK (C04) turns it into a block that the block driver visits with its own provider")
     check.rule("TRAV-IDENT", "the collision check only sees identifiers handed to visit_mut_ident: every path of the operation traversal that skips a sub-tree other than a nested block hides user identifiers from it")
